@@ -515,6 +515,22 @@ func TestC02_RacingAdmin(t *testing.T) {
 		var resurrected atomic.Bool
 		var wg sync.WaitGroup
 		done := make(chan struct{})
+		// a second administrator adds the same new server y at the same moment as the first
+		// (an idempotent add): y is then a member once, and one removal takes it out
+		y, _ := url.Parse("http://y")
+		coReq, coAck := make(chan struct{}), make(chan struct{})
+		var coGo atomic.Bool
+		var dupMsg atomic.Value
+		wg.Add(1)
+		go func() {
+			defer wg.Done()
+			for range coReq {
+				for !coGo.Load() {
+				}
+				_ = p.UpsertServer(y, roundrobin.Weight(1))
+				coAck <- struct{}{}
+			}
+		}()
 		wg.Add(1)
 		go func() { // admin
 			defer wg.Done()
@@ -529,6 +545,30 @@ func TestC02_RacingAdmin(t *testing.T) {
 					panic("remove failed: " + err.Error())
 				}
 				lastRemoved = clk.Add(1)
+				if i%4 == 0 {
+					coGo.Store(false)
+					coReq <- struct{}{}
+					coGo.Store(true)
+					_ = p.UpsertServer(y, roundrobin.Weight(1))
+					<-coAck
+					n := 0
+					for _, u := range p.Servers() {
+						if u.Host == "y" {
+							n++
+						}
+					}
+					if n != 1 {
+						dupMsg.Store(fmt.Sprintf("two administrators added http://y at the same moment: it is listed %d times", n))
+					}
+					if err := p.RemoveServer(y); err != nil {
+						panic("remove y failed: " + err.Error())
+					}
+					for _, u := range p.Servers() {
+						if u.Host == "y" {
+							dupMsg.Store("http://y was added twice at the same moment and removed once: it is still a member")
+						}
+					}
+				}
 				// nobody re-adds x but this goroutine: once removed it must stay out of the pool,
 				// also when a request that was adjusting weights at that moment finishes its work
 				for k := 0; k < 3; k++ {
@@ -541,6 +581,7 @@ func TestC02_RacingAdmin(t *testing.T) {
 				}
 			}
 			absents = append(absents, absent{lastRemoved, 1 << 62})
+			close(coReq)
 		}()
 		for g := 0; g < nReq; g++ {
 			wg.Add(1)
@@ -563,12 +604,18 @@ func TestC02_RacingAdmin(t *testing.T) {
 			}()
 		}
 		wg.Wait()
+		if m := dupMsg.Load(); m != nil {
+			t.Fatalf("%s (rebalancer=%v)", m, useRebalancer)
+		}
 		if resurrected.Load() {
 			t.Fatalf("x was listed in the pool after RemoveServer(x) had returned and before anybody re-added it (rebalancer=%v)", useRebalancer)
 		}
 		sawX := 0
 		for _, o := range observations {
 			if o.host != "x" {
+				if o.host == "y" {
+					continue // y is a member for short moments; its absence is checked through Servers()
+				}
 				if o.host != "stable" {
 					t.Fatalf("request routed to %q which was never in the pool", o.host)
 				}
